@@ -8,6 +8,7 @@
 import ast
 
 from mmsa import core, dataflow
+from mmsa.core import norm
 
 LOWERED_ANCHORS = (
     'tbrmatchedmarkets.TBRMatchedMarkets.greedy_search',
@@ -532,6 +533,14 @@ def constant_setattr(f):
     if isinstance(e, ast.Call) and isinstance(e.func, ast.Attribute) and e.func.attr == '__contains__' and len(e.args) == 1 and not e.keywords:
       changed[0] = True
       return ast.copy_location(ast.Compare(left=expr(e.args[0]), ops=[ast.In()], comparators=[expr(e.func.value)]), e)
+    # functools.partial(f, a, k=v)(b)  is  f(a, b, k=v)
+    if isinstance(e, ast.Call) and isinstance(e.func, ast.Call) and norm(e.func.func) in ('functools.partial', 'partial') and e.func.args \
+        and not any(isinstance(a, ast.Starred) for a in list(e.func.args) + list(e.args)) and not any(k.arg is None for k in list(e.func.keywords) + list(e.keywords)):
+      changed[0] = True
+      inner = e.func
+      kws_ = {k.arg: k for k in inner.keywords}
+      kws_.update({k.arg: k for k in e.keywords})
+      return expr(ast.copy_location(ast.Call(func=inner.args[0], args=list(inner.args[1:]) + list(e.args), keywords=list(kws_.values())), e))
     # (lambda: X)()  is X ;  (lambda a: F(a))(v) is F(v) for a single use of a
     if isinstance(e, ast.Call) and isinstance(e.func, ast.Lambda) and not e.keywords and not any(isinstance(a, ast.Starred) for a in e.args) \
         and len(e.func.args.args) == len(e.args) and not e.func.args.vararg and not e.func.args.kwarg and not e.func.args.kwonlyargs:
